@@ -62,7 +62,9 @@ func (e *cropEnv) drain() {
 // newG returns a fresh model state; prior != nil pre-loads a crop state; repeat = the crop is the
 // same as the previous one and it is at least the third rotation entry (the "keep initial masses"
 // condition of a permanent crop, cropparam.go:180,186,329,335).
-func (e *cropEnv) newG(prior *hermes.VerifCropState, repeat bool) (*hermes.GlobalVarsMain, *hermes.CropSharedVars) {
+// pos (optional): 1 = the crop is the second rotation entry and equals the pre-crop entry (NOT a regrowing stand: the condition
+// of the readers is "at least the third entry"), 2 = third entry after a different crop.
+func (e *cropEnv) newG(prior *hermes.VerifCropState, repeat bool, pos ...int) (*hermes.GlobalVarsMain, *hermes.CropSharedVars) {
 	g := hermes.NewGlobalVarsMain()
 	g.Session = e.session
 	g.DEBUGCHANNEL = e.logs
@@ -74,18 +76,27 @@ func (e *cropEnv) newG(prior *hermes.VerifCropState, repeat bool) (*hermes.Globa
 		g.AKF.SetByIndex(2)
 		g.FRUCHT[1] = hermes.SM
 		g.FRUCHT[2] = hermes.SM
+	} else if len(pos) > 0 && pos[0] == 1 {
+		g.AKF.SetByIndex(1)
+		g.FRUCHT[0] = hermes.SM
+		g.FRUCHT[1] = hermes.SM
+	} else if len(pos) > 0 && pos[0] == 2 {
+		g.AKF.SetByIndex(2)
+		g.FRUCHT[0] = hermes.SM
+		g.FRUCHT[1] = hermes.WW
+		g.FRUCHT[2] = hermes.SM
 	}
 	return &g, l
 }
 
-func (e *cropEnv) readClassic(path string, prior *hermes.VerifCropState, repeat bool) hermes.VerifCropState {
-	g, l := e.newG(prior, repeat)
+func (e *cropEnv) readClassic(path string, prior *hermes.VerifCropState, repeat bool, pos ...int) hermes.VerifCropState {
+	g, l := e.newG(prior, repeat, pos...)
 	hermes.ReadCropParamClassic(path, l, g)
 	e.drain()
 	return hermes.VerifCropDump(g, l)
 }
-func (e *cropEnv) readYml(path string, prior *hermes.VerifCropState, repeat bool) hermes.VerifCropState {
-	g, l := e.newG(prior, repeat)
+func (e *cropEnv) readYml(path string, prior *hermes.VerifCropState, repeat bool, pos ...int) hermes.VerifCropState {
+	g, l := e.newG(prior, repeat, pos...)
 	hermes.ReadCropParamYml(path, l, g)
 	e.drain()
 	return hermes.VerifCropDump(g, l)
